@@ -60,7 +60,10 @@ let handle kind c =
     let nevents = next_int c in
     let st = ref ({ empty_file with f_size = init.io.o_size }, List.init nth (fun _ -> blank N0)) in
     let killed = Array.make nth false in
-    let diverged = ref false in
+    (* damaged-start scenarios are outside the model: oracles hang / panic /
+       "a damaged file is not made worse" only *)
+    let dmg = String.length scen >= 4 && String.sub scen 0 4 = "dmg-" in
+    let diverged = ref dmg in
     let cur = ref init in
     let has_empty (o : obs) = List.exists (fun (e : ent) -> nlen (e_name e) = N0) (all_ents o) in
     (* impl-side accounting of increments, per name id *)
@@ -71,21 +74,29 @@ let handle kind c =
     let reported = Hashtbl.create 8 in
     let prop1 cls detail = if not (Hashtbl.mem reported cls) then (Hashtbl.replace reported cls (); prop cls detail) in
     let check_obs where (o : iobs) =
-      if o.walk <> "wfwalk" then prop1 "wf" (Printf.sprintf "%s: chain walk of the real file failed (%s)" where o.walk)
-      else if not (wf_obsb bucket nlen h false o.io) then begin
-        if wf_obsb bucket nlen h true o.io && has_empty o.io
-        then prop1 "empty-name" (Printf.sprintf "%s: a record with an empty name is linked (entryAt rejects it): %s" where (show_obs o.io))
-        else prop1 "wf" (Printf.sprintf "%s: real file not well-formed: %s" where (show_obs o.io))
-      end;
-      if not (uniq_obsb o.io) then prop1 "one-record-per-name" (Printf.sprintf "%s: a name is linked twice: %s" where (show_obs o.io));
-      (* written records and name bytes only below the limit *)
-      List.iter (fun (e : ent) ->
-          if not (N.leb (N.add (e_off e) (rsize nlen (e_name e))) o.io.o_limit) then
-            prop1 "wf" (Printf.sprintf "%s: written record %s beyond the limit %s" where (show_ent e) (hex_of_n o.io.o_limit))) o.scan;
-      List.iter (fun u -> if not (N.ltb u o.io.o_limit) then
-                    prop1 "wf" (Printf.sprintf "%s: bytes at %s beyond the limit" where (hex_of_n u))) o.stray
+      if dmg then begin
+        if init.walk = "wfwalk" && (o.walk <> "wfwalk" || not (monotone_ok init.io o.io)) then
+          prop1 "damaged-file-worsened"
+            (Printf.sprintf "%s: records reachable in the damaged initial file were lost or the chains broke (%s): before %s after %s"
+               where o.walk (show_obs init.io) (show_obs o.io))
+      end else begin
+        if o.walk <> "wfwalk" then prop1 "wf" (Printf.sprintf "%s: chain walk of the real file failed (%s)" where o.walk)
+        else if not (wf_obsb bucket nlen h false o.io) then begin
+          if wf_obsb bucket nlen h true o.io && has_empty o.io
+          then prop1 "empty-name" (Printf.sprintf "%s: a record with an empty name is linked (entryAt rejects it): %s" where (show_obs o.io))
+          else prop1 "wf" (Printf.sprintf "%s: real file not well-formed: %s" where (show_obs o.io))
+        end;
+        if not (uniq_obsb o.io) then prop1 "one-record-per-name" (Printf.sprintf "%s: a name is linked twice: %s" where (show_obs o.io));
+        (* written records and name bytes only below the limit *)
+        List.iter (fun (e : ent) ->
+            if not (N.leb (N.add (e_off e) (rsize nlen (e_name e))) o.io.o_limit) then
+              prop1 "wf" (Printf.sprintf "%s: written record %s beyond the limit %s" where (show_ent e) (hex_of_n o.io.o_limit))) o.scan;
+        List.iter (fun u -> if not (N.ltb u o.io.o_limit) then
+                      prop1 "wf" (Printf.sprintf "%s: bytes at %s beyond the limit" where (hex_of_n u))) o.stray
+      end
     in
     let check_bounds where (o : iobs) =
+      if not dmg then
       let ids = Hashtbl.fold (fun id _ acc -> id :: acc) begun [] in
       List.iter (fun id ->
           let v = value_in o.io (n_of_int id) in
@@ -157,7 +168,7 @@ let handle kind c =
         end;
         if !cur != prev then begin
           check_obs where !cur;
-          if not (monotone_ok prev.io !cur.io) then
+          if not dmg && not (monotone_ok prev.io !cur.io) then
             prop1 "monotone-bounded" (Printf.sprintf "%s: a value, the limit or the size decreased: before %s after %s" where (show_obs prev.io) (show_obs !cur.io))
         end;
         check_bounds where !cur
@@ -187,10 +198,11 @@ let handle kind c =
       let news = List.filter_map (function OpNew nm -> Some nm | _ -> None) progs.(tid) in
       List.iteri (fun j r ->
           let nm = List.nth news j in
-          if String.length r >= 5 && String.sub r 0 5 = "cell-" then begin
+          if String.length r >= 5 && String.sub r 0 5 = "cell-" && not dmg then begin
             let ok = List.exists (fun (e : ent) -> e_name e = nm && ("cell-" ^ hex_of_n (e_off e)) = r) (all_ents !cur.io) in
             if not ok then prop1 "cell-wrong" (Printf.sprintf "thread %d: newCounter(n%d) returned %s which is not the linked record of that name" tid (int_of_n nm) r)
-          end else if r = "err-toolong" && N.ltb c_maxNameLen (nlen nm) then ()
+          end else if dmg then ()
+          else if r = "err-toolong" && N.ltb c_maxNameLen (nlen nm) then ()
           else if not ikilled then begin
             if final_empty then
               prop1 "empty-name" (Printf.sprintf "thread %d: newCounter(n%d) failed (%s) in a file that holds a record with an empty name" tid (int_of_n nm) r)
